@@ -6,7 +6,8 @@
    SVD of svd_qn) -- each theorem names the part of its contract it uses. *)
 From Coq Require Import List Arith ZArith Bool Lia.
 Import ListNotations.
-From RV Require Import Base.CRing Base.BigSum Model.Chain Gen.CanoSched Model.Cano Proofs.CanoProofs Model.CanoGS Proofs.CanoGSProofs.
+From RV Require Import Base.CRing Base.BigSum Model.Chain Gen.CanoSched Model.Cano Proofs.CanoProofs Model.CanoGS Proofs.CanoGSProofs Proofs.CanoScaleProofs.
+From RV Require Model.Trunc Gen.Trunc.
 Close Scope Q_scope.
 
 (* ------------------------------------------------------------------------------------------------ *)
@@ -216,6 +217,36 @@ Theorem C04_variational_alias_vacuous : forall (A D : Type) (dist : A -> A -> D)
   (forall x, dist x x = z) -> forall prev cur : A, dist cur (if false then prev else cur) = z.
 Proof. exact alias_test_vacuous. Qed.
 Print Assumptions C04_variational_alias_vacuous.
+
+(* ------------------------------------------------------------------------------------------------ *)
+(* scale invariance of the kept count                                                               *)
+(* ------------------------------------------------------------------------------------------------ *)
+(* compress() hands _update_ms the value of CompressConfig.compute_m_trunc unmodified (generated
+   compress_m_trunc_config; the translator aborts if compress() post-processes m_trunc), and under the `fixed`
+   criterion that value (Gen/Trunc.v, generated from utils/configs.py) depends only on the limit of the bond and
+   on HOW MANY singular values there are: multiplying the object by any scalar cannot change what is kept *)
+Theorem C04_fixed_kept_depends_on_length : forall (cfg : Gen.Trunc.config) (sigma sigma' : list QArith_base.Q) idx left,
+  Gen.Trunc.cfg_criteria cfg = Gen.Trunc.Fixed -> length sigma = length sigma' ->
+  compress_m_trunc_config (Gen.Trunc.compute_m_trunc cfg sigma idx left) =
+  compress_m_trunc_config (Gen.Trunc.compute_m_trunc cfg sigma' idx left).
+Proof. exact fixed_kept_depends_on_length. Qed.
+Print Assumptions C04_fixed_kept_depends_on_length.
+Theorem C04_fixed_kept_scale_invariant : forall (cfg : Gen.Trunc.config) (sigma : list QArith_base.Q) (c : QArith_base.Q) idx left,
+  Gen.Trunc.cfg_criteria cfg = Gen.Trunc.Fixed ->
+  compress_m_trunc_config (Gen.Trunc.compute_m_trunc cfg (map (QArith_base.Qmult c) sigma) idx left) =
+  compress_m_trunc_config (Gen.Trunc.compute_m_trunc cfg sigma idx left).
+Proof. exact fixed_kept_scale_invariant. Qed.
+Print Assumptions C04_fixed_kept_scale_invariant.
+Theorem C04_fixed_large_limit_keeps_all : forall (cfg : Gen.Trunc.config) (sigma : list QArith_base.Q) (idx : Z) (left : bool),
+  Gen.Trunc.cfg_criteria cfg = Gen.Trunc.Fixed ->
+  (Model.Trunc.py_len sigma <= Model.Trunc.py_index (Gen.Trunc.cfg_max_dims cfg) (if left then (idx + 1)%Z else idx))%Z ->
+  compress_m_trunc_config (Gen.Trunc.compute_m_trunc cfg sigma idx left) = Model.Trunc.py_len sigma.
+Proof. exact fixed_large_limit_keeps_all. Qed.
+Print Assumptions C04_fixed_large_limit_keeps_all.
+Theorem C04_temp_kept_depends_on_length : forall (limit : Z) (sigma sigma' : list QArith_base.Q), length sigma = length sigma' ->
+  compress_m_trunc_temp limit (Model.Trunc.py_len sigma) = compress_m_trunc_temp limit (Model.Trunc.py_len sigma').
+Proof. exact temp_kept_depends_on_length. Qed.
+Print Assumptions C04_temp_kept_depends_on_length.
 
 (* ------------------------------------------------------------------------------------------------ *)
 (* square-root-free formulation and an executable kernel: Gram-Schmidt without normalisation          *)
